@@ -11,6 +11,7 @@ import (
 	"os"
 	"path/filepath"
 	"strings"
+	"testing"
 	"time"
 
 	"github.com/bluenviron/gohlslib/v2/internal/zzverif/vh"
@@ -217,7 +218,17 @@ func willRotate(r *e1run, u wunit) bool {
 const e1KnownWriteErr = "not received yet"
 
 // runWord executes one word; it returns the run and the index of the first failing symbol (-1 if none).
-func e1RunWord(sc e1Scen, word []sym, scratch string, props map[string]bool, sparsePre bool) (*e1run, int, error) {
+var e1T *testing.T
+
+func e1RunWord(sc e1Scen, word []sym, scratch string, props map[string]bool, sparsePre bool) (r *e1run, failed int, err error) {
+	if e1Bubble[sc.Prop] {
+		inBubble(e1T, func() { r, failed, err = e1RunWordInner(sc, word, scratch, props, sparsePre) })
+		return
+	}
+	return e1RunWordInner(sc, word, scratch, props, sparsePre)
+}
+
+func e1RunWordInner(sc e1Scen, word []sym, scratch string, props map[string]bool, sparsePre bool) (*e1run, int, error) {
 	dir := ""
 	if sc.Cfg.Disk {
 		d, err := os.MkdirTemp(scratch, "e1-")
@@ -244,6 +255,9 @@ func e1RunWord(sc e1Scen, word []sym, scratch string, props map[string]bool, spa
 	after := func() {
 		r.observe()
 		r.checkStep()
+		if r.stepHook != nil {
+			r.stepHook(r)
+		}
 	}
 	if sc.Pre > 0 {
 		preAfter := after
@@ -358,6 +372,9 @@ func e1Explore(c *vh.Ctx, sc e1Scen) {
 		c.Count("writes", int64(len(r.ops)))
 		c.Count("observations", int64(r.nObs))
 		c.Count("uris_fetched", int64(len(r.uriList)))
+		if r.nProbes > 0 {
+			c.Count("requests_probed", int64(r.nProbes))
+		}
 		c.Outcome(sc.Cfg.String() + "|" + r.outcome())
 		if c.WantSample() && len(r.model.cuts) >= 2 {
 			c.Sample(map[string]any{"scenario": sc.Name, "config": sc.Cfg.String(), "ops": r.opsString(), "segments": len(r.model.cuts), "observations": r.nObs})
@@ -486,6 +503,7 @@ func e1Explore(c *vh.Ctx, sc e1Scen) {
 }
 
 func e1Run(c *vh.Ctx, scens []e1Scen) {
+	e1T = c.T
 	if c.Replay != nil {
 		var rp e1Replay
 		if err := json.Unmarshal(c.Replay, &rp); err != nil {
